@@ -133,7 +133,7 @@ Theorem resp_refines_spec_g nonorm nodefct ops k : ops_guard rspecials nonorm op
   let m := srun HResp nonorm (map sop_of ops) in
   let c := canon nonorm k in
   RPeek r k = spec_peek HResp nodefct m c
-  /\ RPeekAll r k = k2adjust HResp c (spec_peek_all HResp nodefct m c)
+  /\ RPeekAll r k = spec_peek_all HResp nodefct m c
   /\ RContentType r = spec_peek HResp nodefct m strContentType
   /\ RContentEncoding r = spec_peek HResp nodefct m strContentEncoding
   /\ RServer r = spec_peek HResp nodefct m strServer.
@@ -144,8 +144,7 @@ Theorem req_refines_spec_g nonorm nodefct evs k : ops_guard qspecials nonorm (qe
   let m := srun HReq nonorm (map sop_of (qev_ops evs)) in
   let c := canon nonorm k in
   QPeek q k = spec_peek HReq nodefct m c
-  /\ QPeekAll q k = (if beq c strCookie && negb (qcookiesCollected q) then spec_peek_all HReq nodefct m c
-                     else k2adjust HReq c (spec_peek_all HReq nodefct m c))
+  /\ QPeekAll q k = spec_peek_all HReq nodefct m c
   /\ QContentType q = spec_peek HReq nodefct m strContentType
   /\ QHost q = spec_peek HReq nodefct m strHost
   /\ QUserAgent q = spec_peek HReq nodefct m strUserAgent.
@@ -185,14 +184,11 @@ Proof.
   - vm_compute. discriminate.
   - vm_compute. discriminate.
 Qed.
-Lemma peek_all_refuted :
-  exists k, RPeekAll (rinit false false) k <> spec_peek_all HResp false (srun HResp false []) (canon false k)
-            /\ RPeekAll (rinit false false) k = [[]] /\ RLen (rinit false false) = 1%Z.
-Proof. exists (s2b "Content-Length"). split; [vm_compute; discriminate|split; vm_compute; reflexivity]. Qed.
-Lemma all_refuted :
-  let ops := [HSet (s2b "Connection") (s2b "keep-alive"); HSet (s2b "Connection") (s2b "close")] in
-  let r := fold_left rstep29 ops (rinit false false) in
-  vals_of (RAll r) strConnection = [s2b "keep-alive"; s2b "close"]
-  /\ spec_all_vals HResp false (srun HResp false (map sop_of ops)) strConnection = [s2b "close"]
-  /\ RPeekAll r (s2b "Connection") = [s2b "close"].
+(* the two repaired defects, as facts about the model of the repaired code *)
+Lemma repaired_examples :
+  RPeekAll (rinit false false) (s2b "Content-Length") = [] /\ RPeekAll (rinit false false) (s2b "Set-Cookie") = []
+  /\ RPeekAll (rinit false false) (s2b "Trailer") = [] /\ QPeekAll (fst (QAll (qinit false false))) (s2b "Cookie") = []
+  /\ (let ops := [HSet (s2b "Connection") (s2b "keep-alive"); HSet (s2b "Connection") (s2b "close")] in
+      vals_of (RAll (fold_left rstep29 ops (rinit false false))) strConnection = [s2b "close"]
+      /\ vals_of (snd (QAll (fold_left qstep29 ops (qinit false false)))) strConnection = [s2b "close"]).
 Proof. vm_compute. repeat split; reflexivity. Qed.
